@@ -43,10 +43,13 @@ Record PInv (s : st) : Prop := {
          o_cb (ops s k) = CbLinked \/ o_cb (ops s k) = CbPopped;
   p_c5 : forall t a kc k, nth_error (thr s) t = Some (a, kc) -> waits_cb a = Some k ->
          o_cb (ops s k) = CbPopped /\ t <> nl s + k;
-  p_c6 : forall t a k, nth_error (thr s) t = Some (a, KStopper k) -> act_ix a = Some k;
+  p_c6 : forall t a k, nth_error (thr s) t = Some (a, KStopper k) -> act_ix a = Some k /\ stop_a a = None;
   (* the sync_complete handshake of stop_type::start *)
-  p_y0 : forall t a kc i, nth_error (thr s) t = Some (a, kc) -> (a = ASyncLoad i \/ a = AStartedOr i) ->
+  p_yk : forall t a kc i, nth_error (thr s) t = Some (a, kc) ->
+         (a = ASyncLoad i \/ a = AStartedOr i \/ a = ASyncSpin i) -> kc = KTop i;
+  p_y0a : forall t a kc i, nth_error (thr s) t = Some (a, kc) -> (a = ASyncLoad i \/ a = AStartedOr i) ->
          o_started (ops s i) = false;
+  p_y0k : forall t a i, nth_error (thr s) t = Some (a, KAfterStart i) -> o_started (ops s i) = false;
   p_y1 : forall t a kc i, nth_error (thr s) t = Some (a, kc) -> (as_a a = Some i \/ as_k kc = Some i) ->
          o_sync (ops s i) <> None;
   p_y2 : forall i, o_started (ops s i) = false -> o_completed (ops s i) = true -> o_sync (ops s i) = Some false ->
@@ -54,6 +57,10 @@ Record PInv (s : st) : Prop := {
   p_y3 : forall t kc i, nth_error (thr s) t = Some (ASyncSpin i, kc) ->
          o_sync (ops s i) = Some true \/ sumf (is_syncstore i) (thr s) >= 1
 }.
+
+Lemma nth_set_nth_eq' {A} (l : list A) n x y : nth_error l n = Some y -> nth_error (set_nth n x l) n = Some x.
+Proof. intros H. rewrite nth_set_nth, Nat.eqb_refl, H. reflexivity. Qed.
+
 
 Lemma sumf_only {A} (f : A -> nat) l t0 y :
   nth_error l t0 = Some y -> (forall n x, n <> t0 -> nth_error l n = Some x -> f x = 0) -> sumf f l = f y.
@@ -107,15 +114,25 @@ Proof.
        simpl in S1; unfold eqn in S1; rewrite Nat.eqb_refl in S1; lia.
 Qed.
 
-Lemma step_p_c1 s t s' evs : PInv s -> step t s = Some (s', evs) ->
-  forall k, o_cb (ops s' k) = CbPopped ->
-  o_cbdone (ops s' k) = true \/ o_rdc (ops s' k) = true \/ sumf (is_cbregion k) (thr s') >= 1.
+Lemma step_p_y3 s t s' evs : PInv s -> step t s = Some (s', evs) ->
+  forall t0 kc i, nth_error (thr s') t0 = Some (ASyncSpin i, kc) ->
+  o_sync (ops s' i) = Some true \/ sumf (is_syncstore i) (thr s') >= 1.
 Proof.
-  intros P H k Hc. pose proof (p_minv _ P) as M. pose proof (m_inv _ M) as I.
-  pose proof (p_c1 _ P k) as E0. pose proof (p_c0 _ P k) as E1.
-  step_split' H Hth; simpl; try (destruct kc; simpl; try kill_ki I Hth); destr_if; use_sum Hth;
+  intros P H t0 kc0 i0 H0. pose proof (p_minv _ P) as M. pose proof (m_inv _ M) as I.
+  step_split' H Hth; simpl in H0;
+  (destruct (nth_thr_cases _ _ _ _ _ _ Hth H0) as [[-> E]|[N E]];
+   [ try (destruct kc; simpl in E; try kill_ki I Hth);
+     repeat match type of E with context [if ?b then _ else _] => destruct b eqn:? end;
+     try discriminate E; injection E as Ea Eb; subst
+   | pose proof (p_y3 _ P _ _ _ E) as E0 ]);
+  simpl; try (destruct kc; simpl; try kill_ki I Hth); destr_if; use_sum Hth;
     unfold getop in *; simpl in *; eqb_cases; subst; simpl in *; try congruence;
-    try (destruct (E0 Hc) as [X|[X|X]]; [left; exact X|right; left; exact X|right; right; lia]; fail);
-    try (right; right; lia); try (left; reflexivity); try (right; left; assumption).
-  Show.
+    try (destruct E0 as [E0|E0]; [left; exact E0|right; lia]; fail);
+    try (left; reflexivity).
+  all: try (exfalso; apply N; rewrite (v_own_a _ I _ _ _ _ E eq_refl); symmetry; eapply (v_own_a _ I _ _ _ _ Hth); reflexivity).
+  all: pose proof (p_y0a _ P _ _ _ _ Hth (or_intror eq_refl)) as Y0;
+       pose proof (p_y1 _ P _ _ _ _ Hth (or_introl eq_refl)) as Y1;
+       pose proof (p_y2 _ P i Y0) as Y2;
+       destruct (o_sync (ops s i)) as [[|]|] eqn:Esy; [left; reflexivity| |congruence];
+       right; assert (X : sumf (is_syncstore i) (thr s) >= 1) by (apply Y2; auto); lia.
 Qed.
